@@ -41,8 +41,28 @@ GEN_TARGETS = ["MenpoModel.Generated.C18Src", "MenpoModel.GenProps.C18Src", "Men
 EXC = ".error (.feature codeMisuse)"
 
 
+ENTRY_POINTS = ("lm_centres_correction", "sample_mask_for_centres", "rebuild_feature_image",
+                "rebuild_feature_image_with_centres", "imgfeature", "ndfeature", "winitfeature",
+                "gradient", "gaussian_filter", "igo", "es", "daisy", "normalize", "normalize_norm", "normalize_std",
+                "normalize_var", "no_op", "sum_channels")
+_HELPERS = {}
+
+
+def helpers():
+    """the module-level functions of base.py / features.py / visualize.py that are not themselves translated entry points:
+    code the entry points may have been split into; calls to them are inlined (py2lean2f)"""
+    if not _HELPERS:
+        import menpo.feature.base as B
+        import menpo.feature.features as FE
+        import menpo.feature.visualize as VI
+        for mod in (B, FE, VI):
+            _HELPERS.update(F.module_helpers(mod, exclude=ENTRY_POINTS))
+    return _HELPERS
+
+
 def rules(expr=(), stmt=(), ret=".ok ({e})", raise_by=None, unit=".ok ({e})", **kw):
-    return F.Rules2F(expr=list(expr), stmt=list(stmt), ret=ret, raise_=None, raise_by=raise_by or {}, unit=unit, **kw)
+    return F.Rules2F(expr=list(expr), stmt=list(stmt), ret=ret, raise_=None, raise_by=raise_by or {}, unit=unit,
+                     helpers=helpers(), **kw)
 
 
 # ---------------------------------------------------------------------------------------------- base.py
@@ -157,23 +177,29 @@ SLICE_STMT = [
     ("$x[$a:$b] = $v", "x", "(setSlice {x} {a} {b} {v})"),
     ("$x[$a:] = $v", "x", "(setSliceFrom {x} {a} {v})"),
 ]
+# igo / es: one rule per numpy call (the parts of a nested expression mean something on their own, so naming a part
+# in a temporary keeps the translation): a complex array is the pair of its real and imaginary part
 IGO_COMMON = [
-    ("len(pixels.shape)", "(nDims + 1)"),
-    ("pixels.shape[0]", "(List.length {pixels})"),
+    ("len($p.shape)", "(nDims + 1)"),
+    ("$p.shape[0]", "(List.length {p})"),
+    ("$p.shape[1]", "(nRows (List.headD {p} []))"),
+    ("$p.shape[2]", "(nCols (List.headD {p} []))"),
+    ("$p.shape", "(shape3 {p})"),
     ("gradient($p)", "((genGradient false (Arg.arr {p})).bind Arg.arrE)", "bind"),
-]
-IGO_RULES = IGO_COMMON + [
-    ("np.angle($g[:$n] + 1j * $g[$n:])", "(angleOf (List.take {n} {g}) (List.drop {n} {g}))"),
-    ("np.empty(($c, pixels.shape[1], pixels.shape[2]), dtype=pixels.dtype)", "(List.replicate {c} ([] : Chan2))"),
+    ("$a + 1j * $b", "(Cplx.mk {a} {b})"),
+    ("np.angle($z)", "(angleC {z})"),
+    ("np.abs($z)", "(absC mag {z})"),
     ("2 * $o", "(dblAngle {o})"),
     ("np.sin($o)", "(sinA mag {o})"),
     ("np.cos($o)", "(cosA mag {o})"),
-]
-ES_RULES = IGO_COMMON + [
-    ("np.abs($g[:$n] + 1j * $g[$n:])", "(absOf mag (List.take {n} {g}) (List.drop {n} {g}))"),
-    ("np.empty(($c, pixels.shape[1], pixels.shape[2]), dtype=pixels.dtype)", "(List.replicate {c} ([] : OChan2))"),
     ("$a + np.median($b)", "(addScalar {a} (medianPx {b}))"),
 ] + SLICE_RULES
+IGO_RULES = IGO_COMMON + [
+    ("np.empty(($c, $h, $w), dtype=$p.dtype)", "(List.replicate {c} ([] : Chan2))"),
+]
+ES_RULES = IGO_COMMON + [
+    ("np.empty(($c, $h, $w), dtype=$p.dtype)", "(List.replicate {c} ([] : OChan2))"),
+]
 ES_BINOP = {ast.Div: "(divPx {a} {b})"}
 
 SUM_RULES = [
@@ -222,7 +248,8 @@ def _decorator_table():
     rows = []
     for mod in (FE, VI):
         for name, deco in F.module_functions(mod):
-            rows.append('("%s", "%s")' % (name, "+".join(deco)))
+            if deco or name in ENTRY_POINTS:       # undecorated helpers the features are split into carry no row
+                rows.append('("%s", "%s")' % (name, "+".join(deco)))
     return "  [" + ",\n   ".join(rows) + "]"
 
 
@@ -369,6 +396,7 @@ N_DEFS = 0
 def generated_files():
     """({relative path: text}, [reasons why a function could not be translated])"""
     global N_DEFS
+    _HELPERS.clear()
     its = items()
     N_DEFS = len(its)
     text, reasons = P2.translate_or_stub(its, HEADER, FOOTER)
